@@ -248,6 +248,8 @@ static void explore_subject(Subject S, int nev, int ncv, int rot, Local& L, cons
     ops.push_back(op_compute(r1, 1, std::max<LD>(1e-6L, 1000 * S.eps), SYM_SORT[(rot + 1) % 4]));
     ops.push_back(op_compute(r0, 0, std::max<LD>(1e-10L, 50 * S.eps), SYM_SORT[(rot + 2) % 4]));
     if (PLAN.prop == "C06") ops.push_back(op_share(1, r0, 1000, std::max<LD>(1e-10L, 50 * S.eps), SYM_SORT[rot % 4]));
+    // an earlier compute() that throws at its very end (sorting rule the solver does not support)
+    if (PLAN.prop == "C06") ops.push_back(op_compute(r0, 5, 1e-10L, SortRule::LargestReal));
     try
     {
         PropOracle<K> po(PLAN.prop, S, ops, L, replay);
